@@ -35,7 +35,11 @@ theorem deepEq_valEq (a b : GoVal) (h : deepEq a b = true) : valEq a b = true :=
     simp only [deepEq, Bool.and_eq_true, beq_iff_eq] at h
     simp only [valEq, Bool.and_eq_true, beq_iff_eq]
     exact ⟨⟨h.1.1, h.1.2⟩, deepEqSub_valEqSub x y h.2⟩
-  | .nilPtr t1, .nilPtr t2 => rfl
+  | .nilPtr t1, .nilPtr t2 => simpa [deepEq, valEq] using h
+  | .ptr t1 x, .ptr t2 y =>
+    simp only [deepEq, Bool.and_eq_true, beq_iff_eq] at h
+    simp only [valEq]
+    exact deepEq_valEq x y h.2
   | .nil, .bool _ | .nil, .int _ _ | .nil, .uint _ _ | .nil, .float _ _ | .nil, .str _ | .nil, .named _ _
   | .nil, .slice _ _ _ | .nil, .map _ _ | .nil, .nilPtr _ => simp [deepEq] at h
   | .bool _, .nil | .bool _, .int _ _ | .bool _, .uint _ _ | .bool _, .float _ _ | .bool _, .str _
@@ -56,6 +60,8 @@ theorem deepEq_valEq (a b : GoVal) (h : deepEq a b = true) : valEq a b = true :=
   | .map _ _, .str _ | .map _ _, .named _ _ | .map _ _, .slice _ _ _ | .map _ _, .nilPtr _ => simp [deepEq] at h
   | .nilPtr _, .nil | .nilPtr _, .bool _ | .nilPtr _, .int _ _ | .nilPtr _, .uint _ _ | .nilPtr _, .float _ _
   | .nilPtr _, .str _ | .nilPtr _, .named _ _ | .nilPtr _, .slice _ _ _ | .nilPtr _, .map _ _ => simp [deepEq] at h
+  | .ptr _ _, .nil | .ptr _ _, .bool _ | .ptr _ _, .int _ _ | .ptr _ _, .uint _ _ | .ptr _ _, .float _ _ | .ptr _ _, .str _ | .ptr _ _, .named _ _ | .ptr _ _, .slice _ _ _ | .ptr _ _, .map _ _ | .ptr _ _, .nilPtr _ => simp [deepEq] at h
+  | .nil, .ptr _ _ | .bool _, .ptr _ _ | .int _ _, .ptr _ _ | .uint _ _, .ptr _ _ | .float _ _, .ptr _ _ | .str _, .ptr _ _ | .named _ _, .ptr _ _ | .slice _ _ _, .ptr _ _ | .map _ _, .ptr _ _ | .nilPtr _, .ptr _ _ => simp [deepEq] at h
 theorem deepEqList_valEqList (a b : List GoVal) (h : deepEqList a b = true) : valEqList a b = true := by
   match a, b with
   | [], [] => rfl
